@@ -213,7 +213,7 @@ impl Builtin for Times {
     fn destructure(&self, rvalue: Obj, lhs: Vec<Option<Obj>>) -> NRes<Vec<Obj>> {
         match (rvalue, few2(lhs)) {
             (Obj::Num(r), Few2::Two(Some(Obj::Num(a)), None)) => {
-                if (&r % &a).is_nonzero() {
+                if !a.is_nonzero() || (&r % &a).is_nonzero() {
                     Err(NErr::value_error("* had remainder".to_string()))
                 } else {
                     let k = Obj::Num(r.div_floor(&a));
@@ -221,7 +221,7 @@ impl Builtin for Times {
                 }
             }
             (Obj::Num(r), Few2::Two(None, Some(Obj::Num(a)))) => {
-                if (&r % &a).is_nonzero() {
+                if !a.is_nonzero() || (&r % &a).is_nonzero() {
                     Err(NErr::value_error("* had remainder".to_string()))
                 } else {
                     let k = Obj::Num(r.div_floor(&a));
@@ -3388,9 +3388,17 @@ pub fn initialize(env: &mut Env) {
         "≥",
     );
     env.insert_builtin(Divide);
-    env.insert_builtin(TwoNumsToNumsBuiltin {
+    env.insert_builtin(TwoNumsBuiltin {
         name: "%".to_string(),
-        body: |a, b| a % b,
+        body: |a, b| match (&a, &b) {
+            // exact remainder by an exact zero has no value (floats still give NaN)
+            (NNum::Int(_) | NNum::Rational(_), NNum::Int(_) | NNum::Rational(_))
+                if !b.is_nonzero() =>
+            {
+                Err(NErr::value_error("division by zero".to_string()))
+            }
+            _ => Ok(Obj::Num(a % b)),
+        },
     });
     env.insert_builtin(TwoNumsBuiltin {
         name: "//".to_string(),
